@@ -359,7 +359,11 @@ def check_page_flow(ctx):
     if rec_loop and toc_calls and sub_src:
         same = txt(rec_loop[0].iter) == 'subtrees' and any(
             txt(a) == 'subtrees' for a in toc_calls[0].args) and \
-            sub_src == ['self.tree_dict[tree]']
+            len(sub_src) == 1 and sub_src[0].replace(' ', '') in (
+                'self.tree_dict[tree]', 'self.tree_dict.get(tree,[])',
+                'self.tree_dict.get(tree,())',
+                'list(self.tree_dict[tree])',
+                'self.tree_dict.get(tree,list())')
         ctx.decide('PAGE-FLOW', rec, f'toc entries and written sub-pages '
                    f'both range over {sub_src}', same,
                    at=rec.where(rec_loop[0]),
@@ -368,6 +372,38 @@ def check_page_flow(ctx):
     else:
         ctx.undecided('PAGE-FLOW', rec, 'toc / recursion shape not '
                       'recognised', at=rec.where())
+    # the file name of a page is the title itself (sanitize_filename is the
+    # identity on what it accepts): a rewritten title makes two titles share
+    # one page behind the back of the duplicate / reserved-name guards
+    t2p = program.func(f'{RST}:FormattedRst.tree_to_path')
+    n_map = 0
+    for node in walk_local(t2p.node):
+        if isinstance(node, (ast.ListComp, ast.GeneratorExp)) and len(
+                node.generators) == 1 and txt(node.generators[0].iter) == \
+                'tree':
+            n_map += 1
+            var = txt(node.generators[0].target)
+            elt = node.elt
+            direct = isinstance(elt, ast.Call) and call_name(elt) == \
+                'sanitize_filename' and len(elt.args) == 1 and txt(
+                    elt.args[0]) == var
+            lossy = [c for c in ast.walk(elt) if isinstance(c, ast.Call) and
+                     call_name(c) in ('strip', 'lstrip', 'rstrip', 'lower',
+                                      'upper', 'replace', 'sub', 'title',
+                                      'casefold', 'translate', 'split',
+                                      'join', 'normalize', 'quote')] + [
+                         c for c in ast.walk(elt) if isinstance(
+                             c, ast.Subscript)]
+            ctx.decide('PAGE-FLOW', t2p, f'page name of a title = '
+                       f'{txt(elt)[:60]}', True if direct else False
+                       if lossy else None, at=t2p.where(node),
+                       detail='the title is rewritten before it becomes a '
+                              'file name: distinct titles (checked as '
+                              'distinct, and against the reserved name, on '
+                              'their raw text) can collide on disk'
+                       if lossy else None)
+    ctx.floor('PAGE-FLOW-name', n_map, 1, 'title -> file name mapping in '
+              'tree_to_path')
     # TOC-REL: entries relative to the directory of the current page
     toc = program.func(f'{RST}:FormattedRst.toc')
     n_toc = 0
@@ -396,6 +432,41 @@ def check_page_flow(ctx):
                               'relative to the parent page is the last two '
                               'titles')
     ctx.floor('TOC-REL', n_toc, 1, 'toc entry path')
+
+
+def check_report_owns(ctx):
+    '''FormattedRst.__init__ copies tree_dict / text_dict / plots: the Rst
+    object that built the report empties its own dictionaries in place
+    (Rst.clear) when it formats the next report.'''
+    from .. import effects
+    program = ctx.program
+    init = program.func(f'{RST}:FormattedRst.__init__')
+    analyzer = effects.Analyzer(program, max_depth=2)
+    summ = analyzer.summary(init)
+    clear = program.maybe_func(f'{RST}:Rst.clear')
+    clears = set()
+    if clear is not None:
+        for node in walk_local(clear.node):
+            if isinstance(node, ast.Call) and call_name(node) == 'clear':
+                clears.add(txt(receiver(node)).split('.')[-1])
+    n = 0
+    for fld in ('tree_dict', 'text_dict', 'plots'):
+        if fld not in init.params:
+            continue
+        n += 1
+        val = summ.field_map.get(fld, frozenset())
+        aliased = [v for v in val if isinstance(v[0], int) and v[0] != 0 and
+                   v[1] == 0 and v[2] == 0]
+        ctx.decide('REPORT-OWNS', init, f'FormattedRst.{fld} is a copy of '
+                   f'the argument', not aliased, at=init.where(),
+                   detail=f'the formatted report keeps the very dictionary '
+                          f'of the Rst object' + (
+                              ', which Rst.clear() empties in place when '
+                              'the next report is formatted: writing the '
+                              'first report afterwards writes the pages of '
+                              'the second' if fld in clears else '')
+                   if aliased else None)
+    ctx.floor('REPORT-OWNS', n, 3, 'dictionary arguments of FormattedRst')
 
 
 # -------------------------------------------------------------- FIG-NAME --
